@@ -463,7 +463,9 @@ static std::string addr_str(const struct sockaddr*sa){
 }
 static bool readable(Obj&o){ switch(o.kind){ case Obj::STREAM: return !o.rx->empty()||o.rx->wr_closed||*o.reset; case Obj::LISTENER: return !o.backlog.empty(); case Obj::FILE_: case Obj::URANDOM: return true; default: return false; } }
 static bool writable(Obj&o){ switch(o.kind){ case Obj::STREAM: return o.tx->room()>0||o.tx->rd_closed||*o.reset; case Obj::FILE_: return true; default: return false; } }
-static bool hup(Obj&o){ return o.kind==Obj::STREAM && (*o.reset || (o.rx->wr_closed && o.tx->rd_closed)); }
+// hang-up as Linux reports it: a local (AF_UNIX) stream or pipe hangs up when the peer has closed; a TCP socket only when BOTH directions are shut - the peer's FIN alone
+// gives "readable" (data, then end of file), POLLHUP comes once this side has shut down its sending side too - or after a reset
+static bool hup(Obj&o){ if(o.kind!=Obj::STREAM) return false; if(*o.reset) return true; if(o.family==AF_UNIX) return o.rx->wr_closed && o.tx->rd_closed; return o.rx->wr_closed && o.tx->wr_closed; }
 static bool err(Obj&o){ return o.kind==Obj::STREAM && *o.reset; }
 
 static void make_pair(std::shared_ptr<Obj>&a,std::shared_ptr<Obj>&b,size_t cap_ab,size_t cap_ba){
